@@ -138,8 +138,12 @@ APPEND = {
  'C05': ('; fill_livetime (array code) and _finalize (orchestration) are regenerated from the source and proved equal to the model',
          ' T-tie: gen_fill_livetime_eq_model, gen_livetime_eq_spec (imperative translator) and the _finalize skeleton (C04); GTI gaps shorter than the dead time down to back-to-back intervals outside '
          'the listed finding; the column written by write_fits → _finalize → fill_livetime against the statement.', ''),
- 'C09': ('; the time and phase masks are regenerated from the source (translator/masks.py) and proved equal to the model',
-         ' Direct selection with a boolean array (--mask): direct_mask_spec, direct_mask_alone, direct_mask_ignored_with_time; the array file is shared by the selections of a run and must stay as written.', ''),
+ 'C09': ('; the time and phase masks (translator/masks.py) and the whole of select() read per row (translator/selecttrans.py) are regenerated from the source and proved equal to the model',
+         ' T-tie: gen_time_mask_eq_model, gen_phase_mask_eq_model, gen_select_row_eq_model, gen_select_iff. Direct selection with a boolean array (--mask): direct_mask_spec, direct_mask_alone, direct_mask_ignored_with_time; the array file is shared by the selections of a run and must stay as written.', ''),
+ 'C01': ('', ' Closure through the package\'s own entry points: a simulation with a weighted response set binned through xpbin\'s defaults (the IRFNAME of the file), the Chandra-to-IXPE '
+         'converter with a polarization that changes with time.', ''),
+ 'C02': ('', ' PCUBE files with the weights read from a column named by --weightcol and the response set left to the file\'s IRFNAME.', ''),
+ 'C06': ('', ' delta_phi_ampl_eq_stokes: the amplitude / phase flavour of the spurious-modulation correction equals the Stokes flavour, for negative amplitudes too.', ''),
  'C10': ('; _time_header_keywords, time_selected, phase_selected and average_deadtime_per_event are regenerated from the source (imperative translator over RealLike: optional values, '
          'dictionary with literal keys, unbound names as failure) and proved equal to the model',
          ' T-tie: gen_time_header_keywords_eq_model (32 combinations of present / missing bounds × algorithm), gen_time_kw_spec; an observation straddling MET 0 with bounds exactly 0.0.', ''),
